@@ -18,7 +18,7 @@ func checkC19(c *an.Ctx) {
 	c.Rule("C19.1", "raw (E5/E10): rawOutputDecorator.Write calls the underlying writer exactly once with its argument itself and returns that call's results; no Write in pkg/output modifies or retains the caller's buffer")
 	c.Rule("C19.2", "one write per line (E10): every path of lineWriter.Write makes exactly one call writing to its destination, carrying the task name, \": \", the stripped payload and the terminator; the prefixed and raw decorators share no mutable package-level state")
 	c.Rule("C19.3", "all bytes are forwarded (E3): in the prefixed Write every consumed line is written to the line buffer before the input advances by exactly what the scanner consumed, the remainder is written after the loop, a nil-error return reports len(p), and WriteFooter flushes the buffer; the scanner is bufio.ScanLines (library contract) or a (line, rest) cutter of the module recognised by shape")
-	c.Rule("C19.4", "Finish without Start (E8/E9): NewTaskOutput covers every exported Format constant; for every decorator, a field assigned only under WriteHeader and dereferenced under WriteFooter is nil-tested first (Run always finishes the output but starts it only before the commands); an index or slice bound taken from sort.Search on a list of started tasks is tested against the length first (the result is the length when the task was never added)")
+	c.Rule("C19.4", "Finish without Start (E8/E9): NewTaskOutput covers every exported Format constant; for every decorator, a field assigned only under WriteHeader and dereferenced under WriteFooter — or under any other exported entry point of pkg/output that does not itself start the output (output.Close, reached from Finish) — is nil-tested first (Run always finishes the output but starts it only before the commands); an index or slice bound taken from sort.Search on a list of started tasks is tested against the length first (the result is the length when the task was never added)")
 	c.Rule("C19.5", "presentation only (E4): pkg/output never writes the task's result fields and never reaches a function that reads the captured log destructively (a bytes.Buffer handed to a reader is drained); in Run the output format is consumed only by NewTaskOutput; Finish's error is logged, never returned")
 	c.Rule("C19.6", "lock order (E8): no function of pkg/output calls a lock-taking method of a shared spinner while holding a mutex that one of the spinner's callbacks (run under the spinner's lock) acquires")
 	c.Summaries = append(c.Summaries, "github.com/briandowns/spinner: Start/Stop/Restart/Reverse/UpdateSpeed/UpdateCharSet/Active take the spinner's lock; the spinner goroutine calls PreUpdate/PostUpdate while holding it (read in spinner.go)")
@@ -667,6 +667,20 @@ func finishWithoutStart(c *an.Ctx, rule string) {
 		follow := func(e an.CallEdge) bool { return an.InModule(e.Callee) && inPkgs("pkg/output")(e.Callee) }
 		H := p.Reach([]*ssa.Function{hdr}, follow)
 		F := p.Reach([]*ssa.Function{ftr}, follow)
+		// every other exported entry point of the package that does not itself start the output
+		// (output.Close, reached from TaskRunner.Finish) can run in state 'created' as well
+		for _, fn := range p.Funcs {
+			if !inPkgs("pkg/output")(fn) || fn.Parent() != nil || fn.Object() == nil || !fn.Object().Exported() {
+				continue
+			}
+			R := p.Reach([]*ssa.Function{fn}, follow)
+			if _, starts := R[hdr]; starts {
+				continue
+			}
+			for f := range R {
+				F[f] = R[f]
+			}
+		}
 		// pointer fields stored only under H
 		type fieldInfo struct{ inH, elsewhere bool }
 		fields := map[string]*fieldInfo{}
